@@ -259,6 +259,24 @@ def extended_cases(tier):
         for where in ("ctor", "block", "both"):
             for kind in KINDS:
                 yield ("cred", auth, where, kind)
+    # two requests with nothing in between but block exits and entries: stack s1, request, unwind u levels, stack s2 on top, request
+    idx = range(len(HD))
+    stacks = [()] + [(a,) for a in idx] + [(a, b) for a in idx for b in idx] + ([(a, b, c) for a in idx for b in idx for c in idx] if tier == "thorough" else
+                                                                                  [(a, b, c) for a in (0, 1, 2) for b in (1, 2, 3) for c in (0, 3, 4)])
+    for s1 in stacks:
+        if not s1:
+            continue
+        for keep in range(len(s1)):
+            for s2 in stacks:
+                if len(s2) + keep > 3 or (not s2 and keep == len(s1)):
+                    continue
+                if tier == "quick" and len(s1) + len(s2) > 4:
+                    continue
+                yield ("two-stacks", s1, keep, s2)
+    # a proxy built (with constructor headers) in one thread and used from another one
+    for i in (0, 2, 13, 14):
+        for kind in KINDS:
+            yield ("other-thread", i, kind, None)
     # configured User-Agent / content type values on both sides of a truthiness test
     for ua in ("", "0", " ", "ua/1 (x; y)"):
         for where in ("ctor-arg", "attribute", "copy"):
@@ -301,6 +319,46 @@ def check_extended(case):
                         do_request(proxy, c)
                 else:
                     do_request(proxy, c)
+            elif what == "two-stacks":
+                proxy = jsonrpclib.ServerProxy("http://h.test:80/p", headers=HD[0], config=CFG)
+                cms = []
+                for i in a:
+                    cm = proxy._additional_headers(HD[i])
+                    cm.__enter__()
+                    cms.append(cm)
+                do_request(proxy, "call")
+                for sig, detail in judge_wire(peer.requests[-1], [HD[0]] + [HD[i] for i in a], "first stack of %r" % (case,)):
+                    out.bad(sig, detail)
+                while len(cms) > b:
+                    cms.pop().__exit__(None, None, None)
+                for i in c:
+                    cm = proxy._additional_headers(HD[i])
+                    cm.__enter__()
+                    cms.append(cm)
+                do_request(proxy, "call")
+                model = [HD[0]] + [HD[i] for i in a[:b]] + [HD[i] for i in c]
+                for sig, detail in judge_wire(peer.requests[-1], model, "second stack of %r" % (case,)):
+                    out.bad(sig, detail)
+                while cms:
+                    cms.pop().__exit__(None, None, None)
+                return out
+            elif what == "other-thread":
+                import threading
+                proxy = jsonrpclib.ServerProxy("http://h.test:80/p", headers=XD[a], config=CFG)
+                errs = []
+
+                def use():
+                    try:
+                        with proxy._additional_headers({"X-T": "t"}):
+                            do_request(proxy, b)
+                    except Exception as ex:
+                        errs.append(ex)
+                th = threading.Thread(target=use)
+                th.start()
+                th.join(30)
+                if errs:
+                    return out.bad("C18/raises-%s" % type(errs[0]).__name__, "%r raised %r in the second thread" % (case, errs[0]))
+                model = [XD[a], {"X-T": "t"}]
             elif what == "config-ua":
                 if b == "ctor-arg":
                     cfg = Config(content_type="application/x-verif", user_agent=a)
@@ -435,7 +493,7 @@ META = {
     "names in several spellings; histories: every event sequence of length <=5 (thorough <=6) over {enter block d0..d4 (two of them equal under == but with different str() values), leave normally, leave by "
     "exception, call, notify, batch} with nesting <=3, with and without constructor headers; extended: every ordered pair of 16 further dictionaries (OrderedDict and dict subclass, values "
     "of str/int subclasses, Decimal, objects with __str__, huge floats, tuples, a 5000-character value, 40 names in one dictionary, a 200-character name) as "
-    "constructor headers + block; URLs with credentials x pushed Authorization headers (constructor / block / both); 3 and 50 consecutive blocks whose dictionaries "
+    "constructor headers + block; two requests separated only by block exits and entries (stack, request, partial unwind, other stack, request) over the 5 history dictionaries up to depth 3; a proxy built in one thread and used from another; URLs with credentials x pushed Authorization headers (constructor / block / both); 3 and 50 consecutive blocks whose dictionaries "
     "are temporaries; blocks left through KeyboardInterrupt / SystemExit / GeneratorExit / BaseException; 5/12/40 nested blocks with restoration checked at every level; 60/400 (thorough 5000) consecutive blocks left normally, by "
     "exception, alternately, or nested in pairs, then a request; every case non-trivial",
     "bounds": {"quick": {"stack_depth": 3, "dicts": 17, "history_depth": 5}, "thorough": {"stack_depth": 4, "dicts": 30, "history_depth": 6}},
